@@ -1,3 +1,18 @@
 import TephraProps.C02
 #print axioms Tephra.Props.C02_stabilize_no_retry_without_progress
 #print axioms Tephra.Props.C02_stabilize_without_recover_state
+#print axioms Tephra.Props.C02_fuel_mono
+#print axioms Tephra.Props.C02_fuel_mono_all
+#print axioms Tephra.Props.C02_cursor_mono
+#print axioms Tephra.Props.C02_next_progress
+#print axioms Tephra.Props.C02_recovery_loops_terminate
+#print axioms Tephra.Props.C02_list_loop_terminates
+#print axioms Tephra.Props.C02
+#print axioms Tephra.Props.C02_initial
+#print axioms Tephra.Props.C02_terminates_loopFree
+#print axioms Tephra.Props.C02_terminates_partial
+#print axioms Tephra.Props.C02_prog_one
+#print axioms Tephra.Props.Witness.scanW_ok
+#print axioms Tephra.Term.matchLoop_fuel_mono
+#print axioms Tephra.Term.run_cursor_mono
+#print axioms Tephra.Term.consistent_tableOf
